@@ -38,8 +38,8 @@ inductive KStep (v : KvVariant) : KSys → KSys → Prop
   | thread (s : KSys) (i : Nat) (t : KThread) (h : s.threads[i]? = some t) :
       KStep v s { s with store := (kstep v s.store s.ctr t).1, ctr := (kstep v s.store s.ctr t).2.1,
                          threads := s.threads.set i (kstep v s.store s.ctr t).2.2 }
-  /-- PrepareFlush (on the worker goroutine) -/
-  | prepare (s : KSys) : KStep v s { s with store := s.store.prepareFlush }
+  /-- PrepareFlush (on the worker goroutine), in either shape of its test -/
+  | prepare (s : KSys) (se : Bool) : KStep v s { s with store := s.store.prepareFlushE se }
   /-- Flush: needFlush() was true, the kv family commit is done -/
   | commit (s : KSys) (h1 : s.committed = false) (h2 : s.store.needFlush = true) :
       KStep v s { s with store := s.store.commit, committed := true }
@@ -77,6 +77,7 @@ inductive KAct
   | call (b n : Nat)
   | thread (i : Nat)
   | prepare
+  | prepareSwapEmpty
   | commit
   | finish
   deriving Repr
@@ -89,7 +90,8 @@ def kact (v : KvVariant) (s : KSys) : KAct → KSys
     | some t => { s with store := (kstep v s.store s.ctr t).1, ctr := (kstep v s.store s.ctr t).2.1,
                          threads := s.threads.set i (kstep v s.store s.ctr t).2.2 }
     | none => s
-  | .prepare => { s with store := s.store.prepareFlush }
+  | .prepare => { s with store := s.store.prepareFlushE false }
+  | .prepareSwapEmpty => { s with store := s.store.prepareFlushE true }
   | .commit =>
     if s.committed = false ∧ s.store.needFlush = true then { s with store := s.store.commit, committed := true } else s
   | .finish => if s.committed = true then { s with store := s.store.finish, committed := false } else s
@@ -104,7 +106,8 @@ theorem kact_reach {v : KvVariant} {s0 s : KSys} (r : KReach v s0 s) (a : KAct) 
     cases h : s.threads[i]? with
     | none => exact r
     | some t => exact .step r (.thread s i t h)
-  | prepare => exact .step r (.prepare s)
+  | prepare => exact .step r (.prepare s false)
+  | prepareSwapEmpty => exact .step r (.prepare s true)
   | commit =>
     simp only [kact]
     by_cases h : s.committed = false ∧ s.store.needFlush = true
